@@ -331,6 +331,7 @@ func carriers(x *sched.Exec) string {
 }
 
 var budgetSec = 120
+var debug = os.Getenv("C11_DEBUG") != ""
 
 // a shard is a batch of scenarios (the generated families have thousands of small ones)
 func explore(w *pool.W, arg json.RawMessage) {
@@ -372,8 +373,13 @@ func exploreOne(w *pool.W, sc scenario) {
 		w.Emit(rec{Kind: "fail", Scenario: sc, Key: key, Clause: clause, Size: sc.N*100000 + len(x.Events), Case: cs,
 			Detail: detail + "\nscenario: " + sc.String() + "\nhandler: " + script(t) + "\nschedule: " + strings.Join(x.Schedule(), " ")})
 	}
+	first := true
 	cfg.Check = func(x *sched.Exec) {
 		st := get()
+		if first && debug {
+			fmt.Fprintf(os.Stderr, "DEBUG %s first schedule: %s\n", sc.String(), strings.Join(x.Schedule(), " "))
+		}
+		first = false
 		var os []string
 		for _, r := range st.resps {
 			os = append(os, r.String())
